@@ -128,6 +128,16 @@ def clean_fields(fields):
     return fields
 
 
+def split_lines(text):
+    """
+    Return a list of lines from ``text`` split on LF, CRLF or CR only.
+    """
+    lines = re.split(r'\r\n|\r|\n', text)
+    if lines and not lines[-1]:
+        lines.pop()
+    return lines
+
+
 is_field_declaration = re.compile(r'^[a-z]+[a-z0-9\-]*:.*$', re.IGNORECASE).match
 is_field_continuation = re.compile(r'^[ \t]+[\S]+.*$', re.IGNORECASE).match
 
@@ -206,7 +216,7 @@ class NumberedLine:
         """
         return [
             cls(number=number, value=value)
-            for number, value in enumerate(text.splitlines(False), 1)
+            for number, value in enumerate(split_lines(text), 1)
         ]
 
     def to_dict(self):
